@@ -8,6 +8,7 @@ import (
 	"encoding/json"
 	"fmt"
 	"os"
+	"sort"
 	"strconv"
 	"strings"
 	"sync"
@@ -44,7 +45,8 @@ type Scenario struct {
 	Act     string `json:"act"` // crash-before | crash-after | torn
 	TornN   int    `json:"torn_n"`
 	TornRel int    `json:"torn_rel"`
-	Phase   string `json:"phase"` // before-storeinfo | storeinfo-to-flip | in-flip | after-flip
+	Phase   string `json:"phase"`          // before-storeinfo | storeinfo-to-flip | in-flip | after-flip
+	Aged    bool   `json:"aged,omitempty"` // every node of the baseline was updated by an earlier committed transaction (both physical ids of its handle have been used)
 }
 
 func (s Scenario) specs() []txn.Spec {
@@ -83,6 +85,22 @@ func victim(args []string) int {
 	if err := txn.Commit(txn.Public{DB: db}, txn.Program{Ops: []txn.Op{{Store: "alpha", Kind: "add", K: "earlier", V: "committed-before-the-victim"}}}, time.Minute); err != nil {
 		fmt.Fprintln(os.Stderr, "earlier:", err)
 		return proc.ExitHarness
+	}
+	if s.Aged {
+		// rewrite every baseline item with the value it already has: the content (and the models) stay the
+		// same, but every leaf has now been through an update commit
+		_, before := txn.Baseline(specs, 9)
+		var age txn.Program
+		for _, sp := range specs {
+			for k, v := range before[sp.Name] {
+				age.Ops = append(age.Ops, txn.Op{Store: sp.Name, Kind: "update", K: k, V: v})
+			}
+		}
+		sort.Slice(age.Ops, func(a, b int) bool { return age.Ops[a].Store+age.Ops[a].K < age.Ops[b].Store+age.Ops[b].K })
+		if err := txn.Commit(txn.Public{DB: db}, age, time.Minute); err != nil {
+			fmt.Fprintln(os.Stderr, "ageing:", err)
+			return proc.ExitHarness
+		}
 	}
 	_, _, prog := s.Models()
 	mir := txn.Mirror{Dir: s.Dir}
@@ -244,15 +262,15 @@ func observe(args []string) int {
 
 // Case is the full result of one crash point.
 type Case struct {
-	Scenario  Scenario    `json:"scenario"`
-	VictimExit int        `json:"victim_exit"`
-	Steps     []StepRes   `json:"steps"`
-	Dump1     sopx.Dump   `json:"dump_after_recovery"`
-	Walk1     walk.Report `json:"walk_after_recovery"`
-	Dump2     *sopx.Dump  `json:"dump_after_touch,omitempty"`
-	Walk2     *walk.Report `json:"walk_after_touch,omitempty"`
-	Steps2    []StepRes   `json:"steps_touch,omitempty"`
-	Harness   string      `json:"harness,omitempty"`
+	Scenario   Scenario     `json:"scenario"`
+	VictimExit int          `json:"victim_exit"`
+	Steps      []StepRes    `json:"steps"`
+	Dump1      sopx.Dump    `json:"dump_after_recovery"`
+	Walk1      walk.Report  `json:"walk_after_recovery"`
+	Dump2      *sopx.Dump   `json:"dump_after_touch,omitempty"`
+	Walk2      *walk.Report `json:"walk_after_touch,omitempty"`
+	Steps2     []StepRes    `json:"steps_touch,omitempty"`
+	Harness    string       `json:"harness,omitempty"`
 }
 
 // Census runs the scenario without a crash and returns the site labels of its commit.
@@ -361,8 +379,27 @@ func RunCase(logDir string, s Scenario, withTouch bool) Case {
 func Plan(r *report.Run, logDir string, shapes []string, torn bool) []Scenario {
 	var out []Scenario
 	profiles := []sopx.Profile{sopx.InNode, sopx.Separate, sopx.SepActive, sopx.SepCached}
+	type variant struct {
+		i    int
+		sh   string
+		aged bool
+	}
+	var vs []variant
 	for i, sh := range shapes {
-		base := Scenario{Seed: r.Seed, Prog: i, Shape: sh, Profile: string(profiles[i%len(profiles)]), Slot: []int{4, 2, 8}[i%3]}
+		vs = append(vs, variant{i, sh, false})
+	}
+	for i, sh := range shapes {
+		// the same shape over a store whose nodes have all been updated before (quick: the removing shapes)
+		if torn || sh == "S7-removes" || sh == "S2-emptied-root" {
+			vs = append(vs, variant{i, sh, true})
+		}
+	}
+	for _, v := range vs {
+		i, sh := v.i, v.sh
+		base := Scenario{Seed: r.Seed, Prog: i, Shape: sh, Profile: string(profiles[i%len(profiles)]), Slot: []int{4, 2, 8}[i%3], Aged: v.aged}
+		if v.aged {
+			base.Profile, base.Slot = string(profiles[(i+1)%len(profiles)]), []int{2, 4}[i%2]
+		}
 		census, err := Census(logDir, base)
 		if err != nil {
 			r.Broken("census of %s failed: %v", sh, err)
